@@ -744,6 +744,17 @@ impl Property<'_> {
     }
 }
 
+#[cfg(minimq_verif)]
+impl<'a> Properties<'a> {
+    /// Verification hook: the raw encoded block of an inbound property collection.
+    pub(crate) fn verif_encoded(&self) -> Option<&'a [u8]> {
+        match &self.inner {
+            PropertiesData::Encoded(block) => Some(block),
+            _ => None,
+        }
+    }
+}
+
 #[cfg(test)]
 mod tests {
     use super::{Properties, Property};
